@@ -286,7 +286,7 @@ pub fn run(run: &RunInfo) -> Summary {
             if skip_for_replay(run, &format!("c04/{name}/")) {
                 return;
             }
-            if total <= 12 {
+            if total <= if thorough { 16 } else { 12 } {
                 // every way of splitting the data, with a Pending before any subset of polls
                 check_stream(&name, &pkts, Chunking::All, 0, false, acc);
                 acc.witness("all chunkings of a short stream explored");
@@ -323,7 +323,7 @@ pub fn run(run: &RunInfo) -> Summary {
         transitions: acc.get("transitions") + acc.get("header_cases"),
         traces_validated: execs,
         distinct_nontrivial: acc.set_len("outcomes") + acc.get("header_agreed"),
-        rule: format!("all sequences of k<=3 packets over a 9-packet alphabet (empty body, 1-2 byte bodies, bodies of 253/254/255/256/300 bytes): for streams of <=12 bytes every partition into read() results with a Pending+wake before any subset of polls; for longer streams every placement of <= {budget} deviations (1-byte, half, all-but-one read, Pending); end of stream at every byte offset; writer/reader header agreement for {} body lengths with a sentinel packet behind. distinct_nontrivial = distinct (stream, end position, result list) outcomes + agreeing body lengths", lens.len()),
+        rule: format!("all sequences of k<=3 packets over a 9-packet alphabet (empty body, 1-2 byte bodies, bodies of 253/254/255/256/300 bytes): for streams of <=12 (thorough: 16) bytes every partition into read() results with a Pending+wake before any subset of polls; for longer streams every placement of <= {budget} deviations (1-byte, half, all-but-one read, Pending); end of stream at every byte offset; writer/reader header agreement for {} body lengths with a sentinel packet behind. distinct_nontrivial = distinct (stream, end position, result list) outcomes + agreeing body lengths", lens.len()),
         exhaustive: true,
         required_witnesses: vec![
             "all chunkings of a short stream explored".into(),
